@@ -435,6 +435,72 @@ var Programs = []Prog{
 		wg.Wait()
 		return r.String()
 	}},
+	// time.Timer under the channel semantics of a `go 1.18` module (one buffer slot, Stop / Reset leave a
+	// value that was already sent)
+	{"timer-stale-after-stop", true, func() string {
+		t := time.NewTimer(1 * time.Millisecond)
+		time.Sleep(20 * time.Millisecond)
+		stopped := t.Stop()
+		select {
+		case <-t.C:
+			return fmt.Sprint(stopped, " stale")
+		default:
+			return fmt.Sprint(stopped, " empty")
+		}
+	}},
+	{"timer-stopped-in-time", true, func() string {
+		t := time.NewTimer(time.Hour)
+		stopped := t.Stop()
+		again := t.Stop()
+		select {
+		case <-t.C:
+			return fmt.Sprint(stopped, again, " value")
+		default:
+			return fmt.Sprint(stopped, again, " empty")
+		}
+	}},
+	{"timer-reset-keeps-stale-value", true, func() string {
+		t := time.NewTimer(1 * time.Millisecond)
+		time.Sleep(20 * time.Millisecond)
+		was := t.Reset(time.Hour)
+		select {
+		case <-t.C:
+			return fmt.Sprint(was, " stale")
+		default:
+			return fmt.Sprint(was, " empty")
+		}
+	}},
+	{"timer-reuse-after-drain", true, func() string {
+		t := time.NewTimer(1 * time.Millisecond)
+		<-t.C
+		was := t.Reset(1 * time.Millisecond)
+		<-t.C
+		select {
+		case <-t.C:
+			return fmt.Sprint(was, " extra")
+		default:
+			return fmt.Sprint(was, " drained")
+		}
+	}},
+	{"timer-photo-finish", false, func() string {
+		reply := make(chan int, 1)
+		go func() { time.Sleep(2 * time.Millisecond); reply <- 1 }()
+		t := time.NewTimer(2 * time.Millisecond)
+		got := ""
+		select {
+		case <-reply:
+			got = "reply"
+		case <-t.C:
+			got = "timeout"
+		}
+		stopped := t.Stop()
+		select {
+		case <-t.C:
+			return fmt.Sprint(got, stopped, " stale")
+		default:
+			return fmt.Sprint(got, stopped, " empty")
+		}
+	}},
 	{"after-does-not-block-firing", true, func() string {
 		t := time.After(1 * time.Millisecond)
 		time.Sleep(5 * time.Millisecond)
